@@ -475,6 +475,9 @@ func (w *PoolWorld) Peer(ctx context.Context, id *Ident, num int, kind string) (
 	return Watched("vipnode_peer by "+id.Name, func() (*pool.PeerResponse, error) { return w.Pool.Peer(ctx, sig, id.NodeID, n, req) })
 }
 
+// NextNonce hands out the world's next fresh nonce (for requests the harness signs itself).
+func (w *PoolWorld) NextNonce() int64 { return w.nextNonce() }
+
 // AddNode performs a real signed pool_addNode.
 func (w *PoolWorld) AddNode(wallet *Ident, nodeID string) error {
 	n := w.nextNonce()
